@@ -235,7 +235,7 @@ Definition hist_of (s : sess) : hist :=
 
 Lemma hist_step s a s' d : sess_step s a = Some (s', d) -> hist_of s' = hist_act (hist_of s) a.
 Proof.
-  intros H. destruct s as [t st q0 qc co sl rl ex oe wf rc po pr rv ib ac cl lc ws [hi he ha]]. destruct a; cbn in H.
+  intros H. destruct s as [t st q0 qc co sl rl ex oe wf rc po pr rv ib ac cl lc ws [hi he ha hp]]. destruct a; cbn in H.
   - destruct (Bool.eqb ok (negb qc)); [|discriminate]. destruct ok; inversion H; subst; reflexivity.
   - inversion H; subst; reflexivity.
   - inversion H; subst; reflexivity.
@@ -254,6 +254,7 @@ Proof.
     destruct (negb (is_nil x) && co && negb wf && negb po && is_tcp t); [|discriminate]. inversion H; subst; reflexivity.
   - destruct (rl && (rc || negb co)); [|discriminate]. unfold leave_recv, quit in H. cbn in H.
     destruct ex; inversion H; subst; reflexivity.
+  - destruct (negb hp && negb ex && can_leave _); [|discriminate]. inversion H; subst; reflexivity.
 Qed.
 
 Lemma map_upd {A B} (f : A -> B) l : forall i x, map f (upd i x l) = upd i (f x) (map f l).
@@ -339,7 +340,7 @@ Proof.
       rewrite En. cbn [orb andb negb hist_of h_acc h_clean h_amb h_cur o_inbox obs_of1 o_closed o_exit_h]. rewrite orb_true_r, Pre. cbn [andb].
       rewrite Co. cbn [negb]. rewrite andb_true_r.
       assert (Hh : amb (hx s) || Nat.eqb (exit_h (hx s)) (hid (hx s)) = true).
-      { destruct (amb (hx s)) eqn:Am; [reflexivity|]. cbn. rewrite (i_amb s I Am Ex). apply Nat.eqb_refl. }
+      { destruct (amb (hx s)) eqn:Am; [reflexivity|]. cbn. rewrite (i_amb s I Am (or_intror Ex)). apply Nat.eqb_refl. }
       rewrite Hh, andb_true_r.
       destruct (clean s) eqn:Cl; [|reflexivity]. cbn [negb orb].
       destruct (i_clean s I Cl) as (_ & _ & _ & _ & F). rewrite (F Ex). apply zlist_eqb_refl.
@@ -398,7 +399,8 @@ Proof.
   cbn in Il. cbn [step].
   destruct (nth_error (ss t) i) as [s|] eqn:En; [|reflexivity]. destruct (started s) eqn:St; [|reflexivity].
   rewrite forallb_forall in S. pose proof (S s (nth_error_In _ _ En)) as Q.
-  destruct (quiet_started s St Q) as (A & B & C). destruct a; try discriminate; [now rewrite A|now rewrite B|now rewrite C].
+  destruct (quiet_started s St Q) as (A & B & C). pose proof (quiet_no_pick s St Q) as D.
+  destruct a; try discriminate; [now rewrite A|now rewrite B|now rewrite C|now rewrite D].
 Qed.
 
 Lemma stable_internal_none t l : stable t = true -> internal l = true -> step t l = None.
